@@ -18,9 +18,20 @@ func main() {
 			"opened on canon(tip) + the SUT's pool; a case = one history, distinct by tree shape + op sequence; non-trivial = at least one walk that undid a block")
 	defer sn.CleanupScratch()
 	nh := r.N(150, 4000)
-	hist.RunHistories(r, nh, gen.DefaultOpts(), hist.StepOpts{Reopen: true, Pool: true, Mine: true}, 10, 40,
+	hist.RunHistoriesX(r, nh, gen.DefaultOpts(), hist.StepOpts{Reopen: true, Pool: true, Mine: true}, 10, 40,
 		[]hist.Auditor{hist.CanonAuditor}, func(s *hist.SUT, op hist.Op) []hist.Problem {
 			return hist.MustSucceed(op)
+		}, func(s *hist.SUT, rng *rand.Rand) []hist.Problem {
+			// now and then a peer's block that the state machine must refuse is offered to Play (junk
+			// transaction, or a conflict with the pool + a bad signature): whether the refusal leaves
+			// a trace is C05's question; here the state must still be the function of its block
+			if rng.Intn(12) != 0 {
+				return nil
+			}
+			if op, _ := s.FailPlay(rng); op.Kind == "" {
+				return nil
+			}
+			return hist.CanonAuditor(s, hist.Op{})
 		})
 	r.Floor("walk.undo", 20)
 	r.Floor("walk.crossfork", 10)
